@@ -124,6 +124,10 @@ def run(run: common.Run):
             s = np.array([[[rng.randint(-50, 200) for _ in range(src.w)] for _ in range(src.h)] for _ in range(nb)], float)
             r = np.array([[[rng.randint(-30, 150) for _ in range(ref.w)] for _ in range(ref.h)] for _ in range(nb)], float)
             rv = pattern(rng, ref.h, ref.w, rng.choice(['holes', 'single', 'border']))
+        if case['hyp'] and nb == 1 and case['i'] % 4 == 1:
+            # 8-bit source whose validity is an alpha band with semi-transparent (1..254) valid pixels
+            case['src_nodata'] = 'alpha'
+            run.hist['source with a partly semi-transparent alpha band'] += 1
         pair = fusion.write_pair(tmp, 'c03', src, ref, s, r, sv, rv, src_nodata=case['src_nodata'])
         proc_ref = (case['proc'] == 'ref') or (case['proc'] == 'auto' and src.px <= ref.px)
         nod = float('nan') if case['out_nodata'] == 'nan' else case['out_nodata']
